@@ -611,10 +611,12 @@ class History:
             return
         if h["stale"]:
             # reset() "will initialize the job if it was not previously initialized": through a handle whose job
-            # was removed elsewhere it creates the job again, empty (and empties the handle's own document object)
+            # was removed elsewhere it creates the job again, empty -- asserted, like remove() below, only for handles
+            # that never held a document object (a stale handle's cached document object is not refreshed: with the
+            # directory gone clear() returns before it reaches the document)
             gone = oracle.job_id(h["sp"]) not in self.model[h["p"]]
             alone = sum(1 for g in self.live() if g["group"] == h["group"]) == 1
-            if not (h.get("stale_by_remove") and gone and alone and not h.get("lockbroken") and not h.get("broken")):
+            if not (h.get("stale_by_remove") and gone and alone and not self.has_doc(h) and not h.get("lockbroken") and not h.get("broken")):
                 return
             h["stale"] = False
             h["stale_by_remove"] = False
